@@ -3,9 +3,9 @@
    uniform_real_distribution<double>, compared with libstdc++ by the K-RNG correspondence).  dr s p = draw number p.
    Every arithmetic; no bound on sizes.
    Only statements; every proof is `exact <lemma>` (proofs live in the files imported below). *)
-From Coq Require Import Arith List Bool ZArith Floats.
+From Coq Require Import Arith List Bool ZArith Floats Reals.
 Import ListNotations.
-From MT Require Import Arith SweepModel InitModel CtrlModel InitProofs RunProofs MainModel InitProofs Mt19937 SeededModel SeedProofs CanonicalRange SeedCorollaries.
+From MT Require Import Arith SweepModel InitModel CtrlModel InitProofs RunProofs MainModel InitProofs Mt19937 SeededModel SeedProofs CanonicalRange SeedCorollaries GenParams FloatInst ParamFacts StartRangeProofs.
 
 (* a realization of the general model with random affinity consumes EXACTLY n = L*K(K+1)/2 + [directed] K*|v_list| + K*|u_list| *)
 (* draws, in this order: affinity, in-memberships (column by column over v_list), out-memberships; rows outside the lists are zero; *)
@@ -211,4 +211,44 @@ Theorem C17_seed_taken_modulo_2_32 : forall (A : Arith float) (label : Type) (le
          maxit nconv u_rows u_cols u0 v0 aff0 seed.
 Proof. exact factorize_seeded_mod32. Qed.
 Print Assumptions C17_seed_taken_modulo_2_32.
+
+(* the amplitude of the noise added to a user-supplied affinity, as it stands in params.hpp now: 0.1 (exactly the double nearest to 0.1 in the executed model) *)
+Theorem C17_params : cxx_EPS_NOISE_R = (1 / 10)%R /\
+       cxx_EPS_NOISE_F = 0.10000000000000001%float /\
+       (forall lnf : float -> float, noise (ArithF lnf) = cxx_EPS_NOISE_F).
+Proof. exact noise_is_one_tenth. Qed.
+Print Assumptions C17_params.
+
+(* every entry of the random start of a realization drawn from RandomGenerator<>{seed} -- out-memberships, in-memberships (directed), affinity -- *)
+(* is a binary64 number d with 0 <= d and d < 1 (general model) *)
+Theorem C17_random_start_in_unit_interval_general : forall (lnf : float -> float) (directed : bool) (N K L : nat) (ul vl : list nat) 
+         (seed : Z) (n : nat) (b : bufs float (list (matrix float)) unit),
+       strm b = mt_draws seed n ->
+       NoDup ul ->
+       Forall (fun i : nat => i < N) ul ->
+       (directed = true -> NoDup vl /\ Forall (fun i : nat => i < N) vl) ->
+       forall (ic' : unit) (ut vt : matrix float) (wt : list (matrix float)) (s3 : list float),
+       start_of float (ArithF lnf) (list (matrix float)) unit (step_random_gen float (ArithF lnf) K L)
+         directed N K ul vl b = (ic', (ut, vt, wt), s3) ->
+       (forall i k : nat, i < N -> k < K -> in_unit (mget float (ArithF lnf) ut i k)) /\
+       (directed = true -> forall i k : nat, i < N -> k < K -> in_unit (mget float (ArithF lnf) vt i k)) /\
+       (forall i j a : nat, i < K -> j < K -> a < L -> in_unit (tget float (ArithF lnf) wt i j a)).
+Proof. exact seeded_random_start_in_unit_general. Qed.
+Print Assumptions C17_random_start_in_unit_interval_general.
+
+(* the same for the assortative model *)
+Theorem C17_random_start_in_unit_interval_assortative : forall (lnf : float -> float) (directed : bool) (N K L : nat) (ul vl : list nat) 
+         (seed : Z) (n : nat) (b : bufs float (list (list float)) unit),
+       strm b = mt_draws seed n ->
+       NoDup ul ->
+       Forall (fun i : nat => i < N) ul ->
+       (directed = true -> NoDup vl /\ Forall (fun i : nat => i < N) vl) ->
+       forall (ic' : unit) (ut vt : matrix float) (wt : list (list float)) (s3 : list float),
+       start_of float (ArithF lnf) (list (list float)) unit (step_random_ass float (ArithF lnf) K L)
+         directed N K ul vl b = (ic', (ut, vt, wt), s3) ->
+       (forall i k : nat, i < N -> k < K -> in_unit (mget float (ArithF lnf) ut i k)) /\
+       (directed = true -> forall i k : nat, i < N -> k < K -> in_unit (mget float (ArithF lnf) vt i k)) /\
+       (forall k a : nat, k < K -> a < L -> in_unit (dget float (ArithF lnf) wt k a)).
+Proof. exact seeded_random_start_in_unit_assortative. Qed.
+Print Assumptions C17_random_start_in_unit_interval_assortative.
 
